@@ -128,7 +128,7 @@ func officersOnly(kinds ...int8) func(g *ref.Game, m ref.Move) bool {
 
 func checkC05(c *harness.Check) {
 	mustAnchors(c)
-	c.Rule = "all PushMove sequences to depth n on a real game board with the reference game in lock-step: (a) <=3-move fortress roots, (b) knight/rook/king shuffles on the start position and on castling-rights roots (repetition with the start position; repetition separated by a rights change; castling and the clock), (c) roots set up with clock 93..99, (d) depth-2 walks from every placement of two bishops (one each / both on one side) and from K+minor/K+P material roots (captures, under-promotions), (e) the same sequences with the tail played on a Fork() taken at every depth, (f) fresh board per path (no take-back involved). Oracle after every push: draw event now => reported drawn (five-fold named); no event in the whole game => not drawn; clock equal; move-less nodes adjudicated mate iff in check. distinct_nontrivial = distinct (root, repetition count, clock>=100, insufficient, reported reason) classes over nodes with a draw event"
+	c.Rule = "all PushMove sequences to depth n on a real game board with the reference game in lock-step: (a) <=3-move fortress roots, (b) knight/rook/king shuffles on the start position and on castling-rights roots (repetition with the start position; repetition separated by a rights change; castling and the clock), (c) roots set up with clock 93..99, (d) depth-2 walks from every placement of two bishops (one each / both on one side) and from K+minor/K+P material roots (captures, under-promotions), (e) the same sequences with the tail played on a Fork() taken at every depth, (f) fresh board per path (no take-back involved), (g) mate and stalemate nets in games that already carry an unclaimed repetition or reach clock 100 with the mating move. Oracle after every push: draw event now => reported drawn (five-fold named); no event in the whole game => not drawn; clock equal; move-less nodes adjudicated mate iff in check. distinct_nontrivial = distinct (root, repetition count, clock>=100, insufficient, reported reason) classes over nodes with a draw event"
 	var cc classCap
 	onPush := func(root string, forkAt int) func(b *board.Board, g *ref.Game, path []string) {
 		return func(b *board.Board, g *ref.Game, path []string) {
@@ -195,6 +195,27 @@ func checkC05(c *harness.Check) {
 	add(c05job{"rnbqkbnr/ppp1pppp/8/8/3pP3/8/PPPP1PPP/RNBQKBNR b KQkq e3 0 3", c.Pick(8, 9), func(g *ref.Game, m ref.Move) bool {
 		return m.Piece == ref.N && (m.From == 6 || m.To == 6 || m.From == 62 || m.To == 62)
 	}, -1, false, "e.p. target distinguishes the first occurrence"})
+
+	// mate and stalemate reached in a game that already carries a draw event (an unclaimed
+	// repetition earlier on, the clock reaching 100 with the mating move itself): adjudication
+	// must still say mate / stalemate
+	only := func(allowed map[int8][]int8) func(g *ref.Game, m ref.Move) bool {
+		return func(g *ref.Game, m ref.Move) bool {
+			for _, to := range allowed[m.Piece] {
+				if to == m.To {
+					return true
+				}
+			}
+			return false
+		}
+	}
+	add(c05job{"6k1/5ppp/8/8/8/8/8/R3K3 w - - 0 1", c.Pick(9, 11), only(map[int8][]int8{ref.R: {0, 8, 56}, ref.K: {62, 63}}), -1, false, "back-rank mate after an unclaimed repetition"})
+	add(c05job{"6k1/5ppp/8/8/8/8/8/R3K3 w - - 0 1", 9, only(map[int8][]int8{ref.R: {0, 8, 56}, ref.K: {62, 63}}), 4, false, "back-rank mate after an unclaimed repetition, forked"})
+	add(c05job{"7k/8/6K1/8/8/8/8/5Q2 w - - 0 1", c.Pick(9, 11), only(map[int8][]int8{ref.Q: {5, 13, 53}, ref.K: {62, 63}}), -1, false, "stalemate after an unclaimed repetition"})
+	for clock := 97; clock <= 99; clock++ {
+		add(c05job{fmt.Sprintf("6k1/5ppp/8/8/8/8/8/R3K3 w - - %d 80", clock), 3, only(map[int8][]int8{ref.R: {0, 8, 56}, ref.K: {62, 63, 3, 4}}), -1, false, "mate on / after the hundredth half-move"})
+		add(c05job{fmt.Sprintf("7k/8/6K1/8/8/8/8/5Q2 w - - %d 80", clock), 3, only(map[int8][]int8{ref.Q: {5, 13, 53}, ref.K: {62, 63}}), -1, false, "stalemate on / after the hundredth half-move"})
+	}
 
 	// (d) material roots: depth-2 walks (captures and under-promotions at ply 1 and 2)
 	material := []string{
